@@ -8,6 +8,7 @@ import Protobom.Model.Diff
 import Protobom.Model.Spdx
 import Protobom.Model.Cdx
 import Protobom.Model.Sniff
+import Protobom.Model.Parse
 
 namespace Protobom.Driver
 open Lean Protobom
@@ -322,6 +323,80 @@ def bomOf (j : Json) : R Cdx.Bom := do
     | _ => pure 1
   pure { serial := optStr j "serial", version := ver, metaComponent := mc, lifecycles := lcs, components := comps }
 
+/-! ### decoded SPDX documents (parser input) -/
+
+def optIntJ (j : Json) (k : String) : Option Int :=
+  match j.getObjVal? k with
+  | .ok v => match v.getInt? with | .ok i => some i | _ => none
+  | _ => none
+
+def strsOfKey (j : Json) (k : String) : List String :=
+  match j.getObjVal? k with
+  | .ok (Json.arr a) => a.toList.filterMap (fun x => match x with | Json.str s => some s | _ => none)
+  | _ => []
+
+def pairsOfKey (j : Json) (k : String) : List (String × String) :=
+  match j.getObjVal? k with
+  | .ok (Json.arr a) => a.toList.filterMap (fun x => match x with
+      | Json.arr #[Json.str p, Json.str q] => some (p, q) | _ => none)
+  | _ => []
+
+def agentOfKey (j : Json) (k : String) : Option Spdx.Agent :=
+  match j.getObjVal? k with
+  | .ok (Json.arr #[Json.str t, Json.str n]) => some { typ := t, name := n }
+  | _ => none
+
+def spdxPackageOf (j : Json) : Spdx.Package :=
+  { id := optStr j "id", name := optStr j "name", version := optStr j "version", fileName := optStr j "fileName",
+    download := optStr j "download", home := optStr j "home", sourceInfo := optStr j "sourceInfo",
+    licenseConcluded := optStr j "licenseConcluded", licenseComments := optStr j "licenseComments",
+    copyright := optStr j "copyright", summary := optStr j "summary", description := optStr j "description",
+    comment := optStr j "comment", purpose := optStr j "purpose", release := optIntJ j "release",
+    built := optIntJ j "built", validUntil := optIntJ j "validUntil",
+    checksums := (pairsOfKey j "checksums").map (fun p => { algo := p.1, value := p.2 }),
+    extRefs := match j.getObjVal? "extRefs" with
+      | .ok (Json.arr a) => a.toList.filterMap (fun x => match x with
+          | Json.arr #[Json.str c, Json.str t, Json.str l, Json.str m] =>
+              some { category := c, refType := t, locator := l, comment := m }
+          | _ => none)
+      | _ => [],
+    attribution := strsOfKey j "attribution", supplier := agentOfKey j "supplier",
+    originator := agentOfKey j "originator" }
+
+def spdxFileOf (j : Json) : Spdx.File :=
+  { id := optStr j "id", name := optStr j "name", fileTypes := strsOfKey j "fileTypes",
+    checksums := (pairsOfKey j "checksums").map (fun p => { algo := p.1, value := p.2 }),
+    licenseConcluded := optStr j "licenseConcluded", licenseComments := optStr j "licenseComments",
+    copyright := optStr j "copyright", comment := optStr j "comment", attribution := strsOfKey j "attribution" }
+
+def spdxDocOf (j : Json) : Spdx.Doc :=
+  { name := optStr j "name", ns := optStr j "ns", comment := optStr j "comment",
+    creators := pairsOfKey j "creators",
+    packages := match j.getObjVal? "packages" with
+      | .ok (Json.arr a) => a.toList.map spdxPackageOf | _ => [],
+    files := match j.getObjVal? "files" with
+      | .ok (Json.arr a) => a.toList.map spdxFileOf | _ => [],
+    rels := match j.getObjVal? "rels" with
+      | .ok (Json.arr a) => a.toList.filterMap (fun x => match x with
+          | Json.arr #[Json.str p, Json.str r, Json.str q] => some { a := p, rel := r, b := q } | _ => none)
+      | _ => [] }
+
+def decodedOf {α} (j : Json) (k : String) (f : Json → R α) : R (Parse.Decoded α) := do
+  let d ← j.getObjVal? k
+  match optStr d "status" with
+  | "ok" => do
+      let v ← f (← d.getObjVal? "native")
+      pure (.ok (strsOfKey d "nils") v)
+  | "panic" => pure .panic
+  | _ => pure .err
+
+def sniffInputOf (i : Json) : R Sniff.Input := do
+  let lines ← strList (← i.getObjVal? "lines")
+  let decl : Option Sniff.Decl := match i.getObjVal? "decl" with
+    | .ok (Json.arr #[Json.str a, Json.str b, Json.str c]) => some ⟨a, b, c⟩
+    | _ => none
+  pure ⟨decl, lines⟩
+
 /-! ### dispatcher -/
 
 def getS (j : Json) (k : String) : R String := do (← j.getObjVal? k).getStr?
@@ -400,6 +475,16 @@ def run (j : Json) : R Json := do
         pure (Json.mkObj [("r", jOutcome Json.str r.1), ("ev", ev),
                           ("pos", toJson (Sniff.posAfter (fun p => p + 4096) 7 r.2))]))
       pure (Json.arr rs.toArray)
+  | "parse" => do
+      let i ← j.getObjVal? "in"
+      let c ← decodedOf i "cdx" bomOf
+      let sp ← decodedOf i "spdx" (fun v => pure (spdxDocOf v))
+      pure (jOutcome jDoc (Parse.parse (← sniffInputOf i) none c sp))
+  | "parseAs" => do
+      let i ← j.getObjVal? "in"
+      let c ← decodedOf i "cdx" bomOf
+      let sp ← decodedOf i "spdx" (fun v => pure (spdxDocOf v))
+      pure (jOutcome jDoc (Parse.parse (← sniffInputOf i) (some (← getS j "f")) c sp))
   | "fmtAcc" => do
       let f ← getS j "f"
       pure (Json.arr #[Json.str (Sniff.typ f), Json.str (Sniff.version f), Json.str (Sniff.major f),
